@@ -306,7 +306,9 @@ SPECS["C05"] = CheckSpec(
          "to each query from {correct, correct with new data, Cache Reset, Error no-data, Error internal, Cache Response "
          "with foreign session, End of Data with foreign session, both foreign, timeout, close, transport error, cache "
          "restart with new session, duplicate announcement / unknown withdrawal (fail after a well-formed End of Data), "
-         "response cut before End of Data}, event while ESTABLISHED {refresh timeout, stop/start, Serial Notify}) is a BFS "
+         "response cut before End of Data, Unsupported-Version report carrying 0, answer in version 0 (session and "
+         "serial across a version change; a refused answer is not an answer)}, event while ESTABLISHED {refresh "
+         "timeout, stop/start, Serial Notify}) is a BFS "
          "level; serials start at 2^32-2 so that they wrap; a monitor (have, session, serial) driven only by completed "
          "exchanges checks every query seen at the transport and that foreign-session responses never end in "
          "ESTABLISHED; states are deduplicated by the canonical state key; non-trivial = distinct states",
